@@ -36,6 +36,8 @@ type c05Val struct {
 	Neg bool     `json:"neg"`
 	Ds  []string `json:"ds"`
 	E10 int64    `json:"e10"`
+	// k = "fn": which runtime representation of a function (family fnval of MC_Ops)
+	Rep string `json:"rep"`
 }
 
 type c05Res struct {
@@ -1154,6 +1156,7 @@ func checkC05(c *Ctx) {
 	}
 
 	// ---- (1) every cell of the model
+	xfam := newC05x(c, pool)
 	portChecked := 0
 	nestNo := 0
 	spellNo := 0
@@ -1165,6 +1168,10 @@ func checkC05(c *Ctx) {
 	onVec := func(raw []byte) {
 		var v c05Vec
 		VecDecode(raw, &v)
+		if v.Fam == "made" || v.Fam == "fnval" { // computed operands, function operands: c05x.go
+			xfam.onVec(raw)
+			return
+		}
 		count("cells " + v.Fam)
 		if v.Fam == "site" || v.Fam == "usite" {
 			siteVecs = append(siteVecs, v)
@@ -1313,7 +1320,7 @@ func checkC05(c *Ctx) {
 		}
 	}
 	res := c.TLC(TLCOpt{Module: "MC_Ops",
-		Cfg: cfgText("INIT Init", "NEXT Next", "CONSTANTS", `Fams = {"bin", "match", "un", "inc", "is", "nest", "site", "usite", "spell"}`, "SpellMasks = {"+strings.Join(masks, ", ")+"}",
+		Cfg: cfgText("INIT Init", "NEXT Next", "CONSTANTS", `Fams = {"bin", "match", "un", "inc", "is", "nest", "site", "usite", "spell", "made", "fnval"}`, "SpellMasks = {"+strings.Join(masks, ", ")+"}",
 			fmt.Sprintf("NestN = %d", nestN), fmt.Sprintf("SiteShift = %d", uint64(c.Seed)%1000), fmt.Sprintf("SiteStride = %d", stride),
 			"INVARIANT Laws", "INVARIANT Vec", "CHECK_DEADLOCK FALSE"),
 		Workers: 8, Heap: "6g", OnVec: onVec})
@@ -1640,6 +1647,7 @@ func checkC05(c *Ctx) {
 		}
 	}
 	st.Wait()
+	xfam.finish()
 	for d, what := range knownEx {
 		c.Known(d, what)
 	}
